@@ -8,7 +8,7 @@ import RxModel.SubjReplay
 a suffix, so "longest good suffix" and "the last ≤ buffer_size in-window values" coincide).
 -/
 
-namespace Replay
+namespace SubjReplay
 variable {α : Type}
 
 /-- Times non-decreasing along the list (the clock is monotone). -/
@@ -183,4 +183,4 @@ theorem trim_append_of_retained {cfg : Cfg} {now now' : Nat} {all q : List (Nat 
     obtain ⟨p', hp'⟩ := hq.2.2 r0 hr0 hg0
     exact ⟨p', by rw [← hp']; simp⟩
 
-end Replay
+end SubjReplay
